@@ -19,7 +19,7 @@ MANIFEST = {
             'held by locals (inductive invariant local = ghost; candidates are the locals holding the ghost value on entry), which makes the '
             'check independent of whether the inner call sits at the top of the loop, at its bottom or once before it. write_ncr\'s length table is '
             'extracted exactly (interval propagation over all scalar values) and equals digits+3 with the &# ; frame; its digit loop is decided by '
-            'verification conditions over its acyclic paths. The inner converters\' own semantics (C01-C04) are not decided here.',
+            'verification conditions over its acyclic paths. The inner converters\' own semantics (C01-C04) are not decided here. Also run here: R-STATE pairing incl. has_pending_state(), which the wrappers\' end-of-stream reservation consults.',
     'note': 'Trusted: rustc MIR, mirx, rule library, slice indexing semantics.',
     'technique': 'ghost-state procedure check over bounded path enumeration with symbolic summaries (rustc MIR) and an inferred loop-head invariant + exact interval extraction (write_ncr)',
 }
@@ -869,4 +869,6 @@ def run(rep, facts, tier):
         for w in WRAPPERS:
             wrapper(rep, f, c, *w)
         write_ncr(rep, f, c)
+        import r_state
+        r_state.pairing(rep, f, c, 'R-STATE')     # has_pending_state(), which the wrappers' end-of-stream reservation consults
     return ('other', MANIFEST['text'], [])
